@@ -540,6 +540,37 @@ Theorem C19_stack_errors :
 Proof. exact (conj hstack_errors (conj vstack_errors concatenate_dispatch)). Qed.
 Print Assumptions C19_stack_errors.
 
+(* ---------------------------------------------------------------- histories on a pool of objects
+   Lib/Matrix.v `papply`/`prun`: every name of a program is an index into a pool of matrices (as values);
+   each API call is a function on the pool.  py/checks/C19.py runs random call sequences with the real
+   class, observes EVERY object after EVERY step and compares with `prun` and with nested-list arithmetic. *)
+(* FRAME: a call changes at most its documented target (augmented assignments, __setitem__, put, the
+   bits setter); every other object -- operands included -- is untouched; at most one object is created *)
+Theorem C19_pool_frame : forall p s p', papply p s = Some p' ->
+  (length p <= length p' <= S (length p))%nat /\
+  forall k, (k < length p)%nat -> step_target s <> Some k -> nth_error p' k = nth_error p k.
+Proof. exact papply_frame. Qed.
+Print Assumptions C19_pool_frame.
+
+(* stacking ONE matrix creates a new object (a copy); an augmented assignment leaves the operator's
+   result in its target and returns a copy of it; the bits setter updates its target only *)
+Theorem C19_pool_steps :
+  (forall p i a, nth_error p i = Some a ->
+     papply p (PHstack [i]) = Some (p ++ [mcopy a]) /\ papply p (PVstack [i]) = Some (p ++ [mcopy a]) /\
+     papply p (PConcat [i] 0) = Some (p ++ [mcopy a]) /\ papply p (PConcat [i] 1) = Some (p ++ [mcopy a])) /\
+  (forall p i j a b, nth_error p i = Some a -> nth_error p j = Some b -> same_shape a b = true ->
+     papply p (PIsub i j) = Some (pset p i (inplace_self a (msub a b)) ++ [misub a b])) /\
+  (forall p i b a, nth_error p i = Some a ->
+     exists p', papply p (PSetbits i b) = Some p' /\ nth_error p' i = Some (mset_bits a b) /\ length p' = length p).
+Proof. exact (conj papply_stack_one (conj papply_isub papply_setbits)). Qed.
+Print Assumptions C19_pool_steps.
+
+(* m.bits = k; m.bits = k2 >= k: the old elements mod 2^k, zero-extended -- dropped bits never return *)
+Theorem C19_bits_narrow_then_widen : forall a k k2 i j, 0 <= k <= k2 ->
+  el (mset_bits (mset_bits a k) k2) i j = trunc k (el a i j) /\ bits (mset_bits (mset_bits a k) k2) = k2.
+Proof. exact bits_narrow_widen. Qed.
+Print Assumptions C19_bits_narrow_then_widen.
+
 (* ---------------------------------------------------------------- non-vacuity *)
 Definition exA : Mx := MkMx 3 64 [[1; 2; 3]; [4; 5; 6]].
 Definition exB : Mx := MkMx 4 64 [[15; 0; 9]; [7; 7; 1]].
@@ -571,5 +602,12 @@ Example C19_example_ops :
   outxo (mhstack [exA; exB; exA]) =
     Some (4, [[1; 2; 3; 15; 0; 9; 1; 2; 3]; [4; 5; 6; 7; 7; 1; 4; 5; 6]],
           encode 4 [1; 2; 3; 15; 0; 9; 1; 2; 3; 4; 5; 6; 7; 7; 1; 4; 5; 6], 64) /\
-  mvstack [exA; exC] = None.
+  mvstack [exA; exC] = None /\
+  prun_out [exA; exB] [PProbe 0; PIsub 1 0; PHstack [0%nat]; PSetbits 2 1; PSetbits 2 3] =
+    [ [outx exA; outx exB];
+      [outx exA; (4, [[14; 0; 6]; [3; 2; 0]], encode 4 [14; 0; 6; 3; 2; 0], 64);
+                 (4, [[14; 0; 6]; [3; 2; 0]], encode 4 [14; 0; 6; 3; 2; 0], 64)];
+      [outx exA; outx (msub exB exA); outx (msub exB exA); outx exA];
+      [outx exA; outx (msub exB exA); (1, [[0; 0; 0]; [1; 0; 0]], 4, 64); outx exA];
+      [outx exA; outx (msub exB exA); (3, [[0; 0; 0]; [1; 0; 0]], encode 3 [0; 0; 0; 1; 0; 0], 64); outx exA] ].
 Proof. vm_compute. repeat split; reflexivity. Qed.
